@@ -3,13 +3,25 @@
 
 pub mod asm;
 pub mod core;
-pub mod des;
 pub mod guest;
-pub mod lockstep;
-pub mod sysrun;
-pub mod models;
+pub mod panics;
 pub mod prng;
+
+#[cfg(not(feature = "net"))]
+pub mod des;
+#[cfg(not(feature = "net"))]
+pub mod lockstep;
+#[cfg(not(feature = "net"))]
+pub mod models;
+#[cfg(not(feature = "net"))]
 pub mod props;
+#[cfg(not(feature = "net"))]
+pub mod sysrun;
+
+#[cfg(feature = "net")]
+pub mod net;
+#[cfg(feature = "net")]
+pub mod simstd;
 
 use self::core::*;
 use self::prng::Rng;
@@ -149,7 +161,7 @@ fn worker<P: Property>(args: &Args) -> i32 {
     // guest console output (print! in the MES write call) goes to a file this process owns
     let console_path = format!("{}.console", out);
     redirect_stdout(&console_path);
-    des::install_panic_hook();
+    panics::install_panic_hook();
 
     let profile = profile_name().to_string();
     let t0 = Instant::now();
@@ -227,7 +239,7 @@ fn worker<P: Property>(args: &Args) -> i32 {
                 let path = format!("{}/{}-{}-{}-{}.json", replay_dir, P::ID, profile, seed, i);
                 let rep = Replay {
                     property: P::ID.to_string(),
-                    engine: "des".to_string(),
+                    engine: if cfg!(feature = "net") { "net" } else { "des" }.to_string(),
                     profile: profile.clone(),
                     seed,
                     index: i,
@@ -323,7 +335,7 @@ fn replay<P: Property>(path: &str) -> i32 {
         return 2;
     }
     redirect_stdout(&format!("{}.console.{}", path, std::process::id()));
-    des::install_panic_hook();
+    panics::install_panic_hook();
     let mut st = Stats::new();
     let v = P::execute(&rep.scenario, &mut st);
     let _ = std::fs::remove_file(format!("{}.console.{}", path, std::process::id()));
@@ -348,6 +360,7 @@ fn replay<P: Property>(path: &str) -> i32 {
     }
 }
 
+#[cfg(not(feature = "net"))]
 macro_rules! dispatch {
     ($id:expr, $f:ident, $($arg:expr),*) => {
         match $id {
@@ -361,6 +374,19 @@ macro_rules! dispatch {
             "C15" => $f::<props::c15::C15>($($arg),*),
             other => {
                 eprintln!("unknown property {}", other);
+                2
+            }
+        }
+    };
+}
+
+#[cfg(feature = "net")]
+macro_rules! dispatch {
+    ($id:expr, $f:ident, $($arg:expr),*) => {
+        match $id {
+            "C18N" => $f::<net::C18N>($($arg),*),
+            other => {
+                eprintln!("unknown property {} (net build)", other);
                 2
             }
         }
